@@ -1,4 +1,6 @@
 import Woodpile.Driver.Util
+import Woodpile.Driver.SortedDeque
+import Woodpile.Driver.SlidingDeque
 import Woodpile.Driver.ReadN
 import Woodpile.Driver.Iovec
 import Woodpile.Driver.CodecW
@@ -16,6 +18,8 @@ def families : List (String × Family) :=
   ++ [("tlvview", RoughTlvFam.viewFamily)]
   ++ [("hcobs_enc", HcobsFam.encFamily)]
   ++ [("hcobs_dec", HcobsFam.decFamily)]
+  ++ [("sdeque", SlidingDequeFam.family)]
+  ++ [("sorted", SortedDequeFam.family)]
 
 def main (args : List String) : IO UInt32 := do
   match args with
